@@ -35,6 +35,7 @@ func runStreamJob(job *Job, res *Result) {
 	rerun := job.Args["rerun"] == "1"
 	mixed := job.Args["mixed"] == "1" // the producer also has an ordinary (non-streaming) output
 	stale := job.Args["stale"] == "1" // a regular file already sits at the streaming output's path (history: the port used to be {o:..})
+	staleFifo := job.Args["stalefifo"] == "1" // a REGULAR file sits at <path>.fifo before the run
 	spy := job.Args["spy"] == "1"     // a pass-through process between producer and consumer notes the order of the streamed IPs
 	res.Scenario = fmt.Sprintf("stream/n=%d/payload=%d/max=%d", n, size, maxT)
 	if mixed {
@@ -48,6 +49,9 @@ func runStreamJob(job *Job, res *Result) {
 	}
 	if spy {
 		res.Scenario += "/spy"
+	}
+	if staleFifo {
+		res.Scenario += "/regular-file-at-fifo-path"
 	}
 	dir := filepath.Join(job.Base, "e")
 	vs.EventsDependent = false
@@ -70,6 +74,9 @@ func runStreamJob(job *Job, res *Result) {
 			os.WriteFile(fmt.Sprintf("in%d.txt", i), []byte(payload(i)), 0644)
 			if stale {
 				os.WriteFile(fmt.Sprintf("in%d.txt.stream", i), []byte("STALE"), 0644)
+			}
+			if staleFifo {
+				os.WriteFile(fmt.Sprintf("in%d.txt.stream.fifo", i), []byte("STALE FIFO"), 0644)
 			}
 		}
 		before = statAll(".")
@@ -170,6 +177,19 @@ func runStreamJob(job *Job, res *Result) {
 				sig = "stream-rerun|producer-blocks-on-fifo"
 			}
 			add(cls, fmt.Sprintf("the run never terminates: %s is stuck: %v", who, stuck), sig)
+			return len(res.Violations) < 5
+		}
+		if staleFifo && strings.HasPrefix(oc, "exit:") && oc != "exit:0" {
+			// refusing to run over the leftover is fine, as long as nothing was handed on or touched
+			for i := 0; i < n; i++ {
+				in := fmt.Sprintf("in%d.txt", i)
+				if c := tree[in+".stream.fifo"]; c != "STALE FIFO" {
+					add("stale-file-modified", "the regular file at "+in+".stream.fifo was modified by a run that refused to start", "")
+				}
+				if _, ok := tree[in+".stream.copy"]; ok {
+					add("consumer-ran-on-leftover", "the consumer produced "+in+".stream.copy from a leftover at the FIFO path", "")
+				}
+			}
 			return len(res.Violations) < 5
 		}
 		if oc != "" {
